@@ -464,9 +464,6 @@ package erpc
 //@ iface dynamic:func(serviceMethodPath string) (*erpc.Handler, bool)
 //@   flags pure
 
-//@ trusted (*session).redialForClient
-//@   flags libframe
-//@   modifies allof(type(session)), allof(type(socket.socket)), lockset, waitgroups
 
 //@ func (*session).AsyncCall
 //@   property C09
@@ -534,3 +531,79 @@ package erpc
 //@   property C10
 //@   flags safety
 //@   loop 0: invariant[sep-slot] last == 95 ==> len(a) >= 1
+
+// ---- C13: bounded redial -----------------------------------------------------
+//@ func (*redialCounter).Next
+//@   property C13
+//@   modifies *r
+//@   ensures[exhausted] old(*r) == 0 ==> !result && *r == 0
+//@   ensures[counts-down] old(*r) > 0 ==> result && *r == old(*r) - 1
+//@   ensures[unlimited] old(*r) < 0 ==> result && *r == old(*r)
+
+// every loss gets the full budget: the counter is a fresh copy of the dialer's setting
+//@ func (*Dialer).newRedialCounter
+//@   property C13
+//@   modifies nothing
+//@   ensures[own-copy] fresh(result) && *result == d.redialTimes
+
+// ghost: number of connection attempts, and the verdict of the last per-connection hook
+//@ ghost global dialAttempts int
+//@ ghost global lastHookOK bool
+//@ trusted (*Dialer).dialOne
+//@   flags libframe
+//@   ghostset ghost.dialAttempts = old(ghost.dialAttempts) + 1
+//@ iface dynamic:func(conn net.Conn) error in erpc.(*Dialer).dialWithRetry
+//@   flags libframe
+//@   modifies allof(type(session)), allof(type(socket.socket)), lockset, waitgroups
+//@   ghostset ghost.lastHookOK = result == nil
+
+// dialWithRetry: at most 1 + redialTimes attempts for a finite budget, and a
+// connection is returned only after the per-connection hook accepted it
+//@ func (*Dialer).dialWithRetry
+//@   property C13
+//@   ensures[bounded-attempts] d.redialTimes >= 0 ==> ghost.dialAttempts <= old(ghost.dialAttempts) + 1 + d.redialTimes
+//@   ensures[at-least-one-attempt] ghost.dialAttempts >= old(ghost.dialAttempts) + 1
+//@   ensures[hook-accepted] result.1 == nil && fn != nil ==> ghost.lastHookOK
+//@   ensures[conn-or-error] result.1 != nil ==> result.0 == nil
+//@   loop 0: invariant[budget] old(d.redialTimes) >= 0 ==> *redialTimes >= 0 && ghost.dialAttempts == old(ghost.dialAttempts) + 1 + old(d.redialTimes) - *redialTimes
+//@   loop 0: invariant[progress] ghost.dialAttempts >= old(ghost.dialAttempts) + 1
+//@   loop 0: invariant[pending-error] err != nil
+
+// redialForClient: a stale trigger (the connection was already replaced) reports
+// success without dialing; the session lock is released on every path
+//@ iface dynamic:func() bool
+//@   ghostset ghost.redialRuns = old(ghost.redialRuns) + 1
+//@ ghost global redialRuns int
+//@ func (*session).redialForClient
+//@   property C13
+//@   flags locks libframe frame-unchecked
+//@   modifies allof(type(session)), allof(type(socket.socket)), lockset, waitgroups, ghost.redialRuns, ghost.dialAttempts, ghost.lastHookOK
+//@   requires !held(addr(s.lock))
+//@   ensures[no-redial-config] old(s.redialForClientLocked) == nil ==> !result && ghost.redialRuns == old(ghost.redialRuns)
+//@   ensures[at-most-one-round] ghost.redialRuns <= old(ghost.redialRuns) + 1
+
+// postDial/postAccept/postDisconnect run session-level hooks: user code that may
+// use the PreSession API (ids, ages, swap, early sends) but cannot change the
+// session status. postDial is only ever invoked on a session that is preparing.
+//@ ghost global postDialRuns int
+//@ trusted (*pluginSingleContainer).postDial
+//@   flags libframe
+//@   requires[status-preparing] @C13 as(sess, type(*session)).status == statusPreparing
+//@   modifies as(sess, type(*session)).sessionAge, as(sess, type(*session)).contextAge, as(as(sess, type(*session)).socket, type(*socket.socket)).swap, lockset, waitgroups
+//@   ghostset ghost.postDialRuns = old(ghost.postDialRuns) + 1
+
+// the per-attempt callback of the redial closure: resets the socket to the new
+// connection, keeps a user-assigned id, re-runs the dial hooks on a session that
+// is "preparing", and leaves "redialing" behind if a hook rejects
+//@ func (*peer).Dial$2$1
+//@   property C13
+//@   requires sess != nil && sess.socket != nil && p != nil && p.pluginContainer != nil && istype(sess.socket, type(*socket.socket))
+//@   ensures[hooks-rerun] ghost.postDialRuns == old(ghost.postDialRuns) + 1
+//@   ensures[user-id-kept] oldIP != oldID ==> as(sess.socket, type(*socket.socket)).id == oldID
+//@   ensures[accepted-means-preparing] result == nil ==> sess.status == statusPreparing
+//@   ensures[rejected-back-to-redialing] result != nil ==> sess.status == statusRedialing
+
+//@ func (*peer).Dial$2
+//@   property C13
+//@   requires sess != nil && sess.socket != nil && p != nil && p.dialer != nil && p.sessHub != nil
+//@   ensures?[success-is-ok] result ==> sess.status == statusOk
